@@ -63,7 +63,7 @@ TIMEOUT = 600.0
 
 
 def thresholds(tier):
-    m = 1 if tier == "quick" else 25
+    m = 2 if tier == "quick" else 25
     return {"models_used": 20 * m, "pipelines": 350 * m, "reached_value": 150 * m, "roundtrip_equivalent": 150 * m,
             "export:if": 150 * m, "export:loop_while": 100 * m, "export:loop_for": 40 * m, "export:inline_const": 700 * m,
             "export:operator_form": 1000 * m, "export:make_model": 6 * m, "export:function": 150 * m, "function_protos": 10 * m,
@@ -77,7 +77,7 @@ def thresholds(tier):
 
 def cases(tier, seed):
     out = []
-    rounds = 1 if tier == "quick" else 42
+    rounds = 2 if tier == "quick" else 42
     for rd in range(rounds):
         for s in G.SCRIPT_STRATA:
             out.append({"kind": "script", "stratum": s, "seed": [seed, rd]})
